@@ -74,6 +74,15 @@ type Zone struct {
 	offFirst             int   // the offset in force at From
 }
 
+// floorDiv: a/b rounded towards minus infinity (instants before 1970 are negative).
+func floorDiv(a, b int64) int64 {
+	q := a / b
+	if a%b != 0 && a < 0 {
+		q--
+	}
+	return q
+}
+
 func offsetAt(loc *time.Location, u int64) int {
 	_, off := time.Unix(u, 0).In(loc).Zone()
 	return off
@@ -111,11 +120,11 @@ func ScanZone(name string, loc *time.Location, from, to int64, crossCheck bool) 
 			z.Transitions = append(z.Transitions, e)
 			z.offAfter = append(z.offAfter, after)
 			if e%900 != 0 {
-				z.badQuarter[e/900] = true
+				z.badQuarter[floorDiv(e, 900)] = true
 				z.UnalignedTransitions = append(z.UnalignedTransitions, e)
 			}
 			if e%60 != 0 {
-				z.badMinute[e/60] = true
+				z.badMinute[floorDiv(e, 60)] = true
 			}
 		}
 		cur = end
@@ -318,12 +327,12 @@ func (sc *Scanner) Next(t time.Time) Answer {
 			continue
 		}
 		switch {
-		case level <= 1 && off%900 == 0 && !sc.Z.badQuarter[sc.b/900]:
+		case level <= 1 && off%900 == 0 && !sc.Z.badQuarter[floorDiv(sc.b, 900)]:
 			// month, day and hour are constant over this UTC quarter hour
-			sc.b = (sc.b/900 + 1) * 900
-		case level <= 2 && off%60 == 0 && !sc.Z.badMinute[sc.b/60]:
+			sc.b = (floorDiv(sc.b, 900) + 1) * 900
+		case level <= 2 && off%60 == 0 && !sc.Z.badMinute[floorDiv(sc.b, 60)]:
 			// ... and, with the minute, over this UTC minute
-			sc.b = (sc.b/60 + 1) * 60
+			sc.b = (floorDiv(sc.b, 60) + 1) * 60
 		default:
 			sc.b++
 		}
